@@ -162,6 +162,26 @@ Theorem get_wrap_gated : forall cok s u w r s',
 Proof. exact LifecycleProofs.get_wrap_gated. Qed.
 Print Assumptions get_wrap_gated.
 
+(* the gates are not only necessary but sufficient (so the theorems above are not vacuous by over-refusal):
+   with parameters present and the crypto engine not raising, a usable key gives OK *)
+Theorem use_key_ok_iff : forall cok s u p t b,
+  use_key cok s u p t b = OK <-> cok = true /\ p = true /\ usable s u t b.
+Proof. exact LifecycleProofs.use_key_ok_iff. Qed.
+Print Assumptions use_key_ok_iff.
+
+(* Activate succeeds exactly from Pre-Active; a successful Revoke had KEY_COMPROMISE or found the object Active *)
+Theorem activate_ok_iff : forall cok s u s',
+  step cok s (Activate u) = (OK, s') <->
+  (exists ob, lookup u (objs s) = Some ob /\ ost ob = Some PreActive) /\ s' = mkstore (set_state u Active (objs s)) (next_uid s).
+Proof. exact LifecycleProofs.activate_ok_iff. Qed.
+Print Assumptions activate_ok_iff.
+
+Theorem revoke_ok_inv : forall cok s u c s',
+  step cok s (Revoke u c) = (OK, s') ->
+  exists ob st, lookup u (objs s) = Some ob /\ ost ob = Some st /\ (c = KeyCompromise \/ st = Active).
+Proof. exact LifecycleProofs.revoke_ok_inv. Qed.
+Print Assumptions revoke_ok_inv.
+
 (* ---------------------------------------------------------------- 5. Destroy is refused for an Active object *)
 Theorem destroy_refused_when_active : forall cok s u ob,
   lookup u (objs s) = Some ob -> ost ob = Some Active ->
